@@ -2550,3 +2550,99 @@ Proof.
     + inversion E; subst. vm_compute in Ha. discriminate.
     + inversion E as [[E1 E2]]. destruct pre; discriminate.
 Qed.
+
+(* ------------------------------------------------------------------ *)
+(** * 14. Whole histories: as many aggregated replies as requests *)
+
+Lemma outs_cons s x t : outs s (x :: t) = snd (merge_step s x) :: outs (fst (merge_step s x)) t.
+Proof. unfold outs. rewrite exec_cons. reflexivity. Qed.
+
+Lemma outs_app s a b : outs s (a ++ b) = outs s a ++ outs (final s a) b.
+Proof. unfold outs, final. rewrite exec_app. reflexivity. Qed.
+
+(** without an EVENT [id], and with no slot for it, nothing is said about [id] *)
+Lemma no_cevent_quiet n id w : forall s,
+  state_ok n s -> assoc id (os_s (st_os s)) = None -> trace_ok n w -> no_cevent id w ->
+  count_occ_b (is_ok_out id) (outs s w) = 0%nat.
+Proof.
+  induction w as [|x w IH]; intros s Hs H0 Ht Hnc; [reflexivity|].
+  inversion Ht as [|? ? Hx Ht']; subst. rewrite outs_cons. cbn [count_occ_b].
+  assert (Hcx : is_cevent_of id x = false) by (apply Hnc; now left).
+  assert (Hstep : assoc id (os_s (st_os (fst (merge_step s x)))) = None /\ is_ok_out id (snd (merge_step s x)) = false).
+  { destruct (is_ok_in id x) eqn:Eok.
+    2:{ destruct (os_frame n s x id Hs Hx Hcx Eok) as [F O]. now rewrite F. }
+    destruct x as [| | | |j [| |m| | |]]; try discriminate. cbn in Eok. apply str_eqb_eq in Eok. subst id.
+    cbn [input_ok] in Hx. destruct Hs as [Hd [Hr [Ho Hc]]].
+    destruct (send_ok_spec n s j m Ho Hx) as [o' [E [_ [_ [Hs' _]]]]].
+    unfold merge_step. rewrite Hd, E. cbn [fst snd with_os st_os]. rewrite Hs', H0. cbn. auto. }
+  destruct Hstep as [H1 H2]. rewrite H2.
+  apply IH; [now apply step_ok | assumption | assumption | intros y Hy; apply Hnc; now right].
+Qed.
+
+Lemma no_cevent_count id w : no_cevent id w -> count_occ_b (is_cevent_of id) w = 0%nat.
+Proof.
+  induction w as [|x w IH]; intro H; [reflexivity|]. cbn. rewrite (H x (or_introl eq_refl)).
+  apply IH. intros y Hy. apply H. now right.
+Qed.
+
+(** If, after the history [t], no EVENT with id [id] is in flight — every
+    submission was answered by every child before the next one with that id
+    came — then the client has received exactly as many OKs for [id] as it
+    submitted EVENTs with that id. *)
+Theorem ok_count_equals_event_count n id t :
+  (1 <= n)%nat -> trace_ok n t -> idle_ev n id t ->
+  count_occ_b (is_ok_out id) (outs (init n) t) = count_occ_b (is_cevent_of id) t.
+Proof.
+  intros Hn Ht Hi. induction Hi as [pre Hnc | pre w Hi IH Hnc Ha].
+  - rewrite (no_cevent_count id pre Hnc).
+    apply (no_cevent_quiet n id pre); try assumption; [apply init_ok | reflexivity].
+  - destruct (trace_ok_window _ _ _ _ Ht) as [Ht1 [_ Ht2]]. specialize (IH Ht1).
+    rewrite outs_app, outs_cons, !count_occ_b_app. cbn [count_occ_b]. rewrite IH.
+    assert (Hs : state_ok n (final (init n) pre)) by now apply reach_ok.
+    pose proof (idle_ev_slot n id pre Hn Ht1 Hi) as H0.
+    pose proof (ok_exactly_one n _ id w Hn Hs H0 Ht2 Hnc) as H1. unfold evt_outs in H1. rewrite H1, Ha.
+    assert (Hnone : snd (merge_step (final (init n) pre) (CEvent id)) = None).
+    { unfold merge_step. destruct (st_dead _); reflexivity. }
+    rewrite Hnone. cbn [is_ok_out is_cevent_of]. rewrite str_eqb_refl, (no_cevent_count id w Hnc). lia.
+Qed.
+
+Lemma no_ccount_quiet n sub w : forall s,
+  state_ok n s -> assoc sub (cs_counts (st_cs s)) = None -> trace_ok n w -> no_ccount sub w ->
+  count_occ_b (is_count_out sub) (outs s w) = 0%nat.
+Proof.
+  induction w as [|x w IH]; intros s Hs H0 Ht Hnc; [reflexivity|].
+  inversion Ht as [|? ? Hx Ht']; subst. rewrite outs_cons. cbn [count_occ_b].
+  assert (Hcx : is_ccount_of sub x = false) by (apply Hnc; now left).
+  assert (Hstep : assoc sub (cs_counts (st_cs (fst (merge_step s x)))) = None /\
+                  is_count_out sub (snd (merge_step s x)) = false).
+  { destruct (is_cnt_in sub x) eqn:Eok.
+    2:{ destruct (cs_frame n s x sub Hs Hx Hcx Eok) as [F O]. now rewrite F. }
+    destruct x as [| | | |j [| | |m| |]]; try discriminate. cbn in Eok. apply str_eqb_eq in Eok. subst sub.
+    cbn [input_ok] in Hx. destruct Hs as [Hd [Hr [Ho Hc]]].
+    destruct (send_count_spec n s j m Hc Hx) as [o' [E [_ [_ [Hs' _]]]]].
+    unfold merge_step. rewrite Hd, E. cbn [fst snd with_cs st_cs]. rewrite Hs', H0. cbn. auto. }
+  destruct Hstep as [H1 H2]. rewrite H2.
+  apply IH; [now apply step_ok | assumption | assumption | intros y Hy; apply Hnc; now right].
+Qed.
+
+Lemma no_ccount_count sub w : no_ccount sub w -> count_occ_b (is_ccount_of sub) w = 0%nat.
+Proof.
+  induction w as [|x w IH]; intro H; [reflexivity|]. cbn. rewrite (H x (or_introl eq_refl)).
+  apply IH. intros y Hy. apply H. now right.
+Qed.
+
+Theorem count_count_equals_request_count n sub t :
+  (1 <= n)%nat -> trace_ok n t -> idle_cnt n sub t ->
+  count_occ_b (is_count_out sub) (outs (init n) t) = count_occ_b (is_ccount_of sub) t.
+Proof.
+  intros Hn Ht Hi. induction Hi as [pre Hnc | pre w Hi IH Hnc Ha].
+  - rewrite (no_ccount_count sub pre Hnc).
+    apply (no_ccount_quiet n sub pre); try assumption; [apply init_ok | reflexivity].
+  - destruct (trace_ok_window _ _ _ _ Ht) as [Ht1 [_ Ht2]]. specialize (IH Ht1).
+    rewrite outs_app, outs_cons, !count_occ_b_app. cbn [count_occ_b]. rewrite IH.
+    assert (Hs : state_ok n (final (init n) pre)) by now apply reach_ok.
+    pose proof (count_exactly_one n _ sub w Hn Hs Ht2 Hnc) as H1. unfold cnt_outs in H1. rewrite H1, Ha.
+    assert (Hnone : snd (merge_step (final (init n) pre) (CCount sub)) = None).
+    { unfold merge_step. destruct (st_dead _); reflexivity. }
+    rewrite Hnone. cbn [is_count_out is_ccount_of]. rewrite str_eqb_refl, (no_ccount_count sub w Hnc). lia.
+Qed.
